@@ -166,7 +166,8 @@ func (d *Dumper) ValueLit(in any, optFns ...ValueLitOptFn) string {
 			t := d.ReflectTypeLit(elem.Type())
 			return fmt.Sprintf("func(v %s) *%s { return &v }(%s)", t, t, d.ValueLit(elem, optFns...))
 		}
-		return fmt.Sprintf("&(%s)", d.ValueLit(elem, optFns...))
+		// what is pointed to is a value of its own, not a struct field that may be left out
+		return fmt.Sprintf("&(%s)", d.ValueLit(elem, append(optFns, SubValue(false))...))
 	case reflect.Struct:
 		buf := bytes.NewBufferString(d.ReflectTypeLit(tpe))
 		buf.WriteString(`{`)
@@ -228,7 +229,7 @@ func (d *Dumper) ValueLit(in any, optFns ...ValueLitOptFn) string {
 
 			buf.WriteString(k)
 			buf.WriteString(":")
-			buf.WriteString(d.ValueLit(keyValues[k], optFns...))
+			buf.WriteString(d.ValueLit(keyValues[k], append(optFns, SubValue(false))...))
 			buf.WriteString(",")
 			buf.WriteString("\n")
 		}
